@@ -26,6 +26,9 @@ def pivot():
                       generics=GEN, ty_args="<u8>", subst={"T": "u8"}, serialize_all="title_case", note="generic, title_case (spaces in names)"))
     S.append(EnumSpec("WithDef", [U("Aa"), U("Other", fields=[Field("String")], default=True), U("Bb", serialize=["bb", "b"])],
                       note="default variant present (excluded from the round trip, but it would swallow a wrong name silently)"))
+    S.append(EnumSpec("Langs", [U("French", to_string="Fran\u00e7ais"), U("Spanish", to_string="Espa\u00f1ol"), U("De", serialize=["de", "Deutsch"]),
+                                U("Mu", serialize=["\u00b5m"], fields=[Field("u8")])],
+                      note="the longest spelling in bytes is non-ASCII (char count < byte length)"))
     S.append(EnumSpec("CaseOnly", [U("Mb", serialize=["mb"], to_string="MB"), U("Kb", serialize=["kb", "KB", "Kb"]), U("Plain")],
                       note="serialize and to_string of one variant differ only in letter case (case-sensitive enum)"))
     S.append(EnumSpec("Esc", [U("Braces", to_string="${{name}}", fields=[Field("u32", name="id")], named=True), U("Tb", serialize=["{{x}}", "x"], fields=[Field("u8")]),
